@@ -7,7 +7,7 @@ open TopSearch.Moves
 section box
 variable {α : Type} [LT α] [LE α] [DecidableLT α] [DecidableLE α]
 /-- check_bounds, one coordinate -/
-def checkBounds1 (x lo hi : α) : Bool := (!((decide (x > lo)) && (decide (x < hi))))
+def checkBounds1 (x lo hi : α) : Bool := ((decide (x ≤ lo)) || (decide (hi ≤ x)))
 /-- active_bounds, one coordinate: (first returned mask, second returned mask) -/
 def activeBounds1 (x lo hi : α) : Bool × Bool := ((decide (x ≤ lo)), (decide (x ≥ hi)))
 /-- move_to_bounds, one coordinate -/
@@ -34,7 +34,7 @@ def molecularAngle (u m : α) : α := (((u * ((2 : Nat) : α)) - ((1 : Nat) : α
 end steps
 
 /-- AtomicPerturbation: `random.sample(range(sampleLo, sampleHi ndim), max_atoms)` -/
-def sampleLo : Nat := 0
+def sampleLo : Nat := 1
 def sampleHi (ndim : Nat) : Nat := (ndim / 3)
 
 section rot
